@@ -7,6 +7,7 @@ from props import c05
 
 ID = 'C20'
 PROP_FILE = 'Props/C20.v'
+EXTRA_PROP_FILES = ['Props/C20Src.v']     # K1 source tie (tools/props/src_translate.py), see docs/reports/SRC.md
 EVAL_FILES = ['Oracle/C20Oracle.v']
 CRATES = ['c20']
 MODES = ['debug', 'release']
